@@ -15,7 +15,7 @@ import vlib
 PROP = "C11"
 # of the whole-program verdicts (Trace_Prog), C11 owns the loop bookkeeping and the next-RIP of non-transfer instructions
 PROG_OWNS = lambda c, cls, m: c.startswith("C11:") or (c == "rip" and cls == "data")
-KINDMAP = {"plain": "nop", "jmp": "jmp32", "call": "call32", "ret": "ret", "fault": "fault"}
+KINDMAP = {"plain": "nop", "jmp": "jmp32", "call": "call32", "ret": "ret", "fault": "fault", "pop": "pop_rcx"}
 
 
 def concretise(prog):
@@ -77,7 +77,7 @@ def three_way(rng, k, p, mx, steps, extra, entry=None, hooks=()):
     return [a, b, c], {b["id"]: a["id"]}
 
 
-def random_scenarios(rng, n, hooks_fn=None, fault_p=0.06, syscall_p=0.0, allow=("plain", "plain", "jmp", "jcc", "jcc", "call", "ret")):
+def random_scenarios(rng, n, hooks_fn=None, fault_p=0.06, syscall_p=0.0, allow=("plain", "plain", "jmp", "jcc", "jcc", "call", "call", "ret", "ret", "pop", "push")):
     scs, refs = [], {}
     for k in range(n):
         size = rng.choice([2, 3, 4, 6, 8, 10])
